@@ -207,6 +207,8 @@ class Engine:
                 if g.tls and getattr(s, 'phase', 'layout') != 'layout': return s.tls_addr(None, g)
                 return s.gaddr[c.name]
             if c.name in s.faddr: return s.faddr[c.name]
+            f_ = s.mod.funcs.get(c.name)
+            if f_ is not None: return 0x7000 + (hash(c.name) % 4096) * 16      # declared-only function (e.g. extern_weak probes): some non-null address
             raise Unsupported('global %s' % c.name)
         if c.kind == 'int': return c.val & mask(width_of(ty)) if ty is not None else c.val
         if c.kind in ('undef', 'zero'): return 0
@@ -1418,6 +1420,19 @@ class Engine:
             return p.errno_addr
         if n in ('vf_yield', 'vf_usleep', 'sched_yield', 'usleep'): return 0
         if n == 'sysconf': return 4096
+        if n in ('pthread_mutex_lock', 'pthread_mutex_trylock'):
+            # a mutex is a lock word: acquire-RMW 0 -> 1; executions in which the lock is held at that moment are excluded
+            # (blocking is a scheduling constraint; critical sections are finite). Deadlock on mutexes is outside the claim.
+            if s.phase == 'init': s.init_mem.store(a[0], 4, 1); return 0
+            old, er = s.shared_load(p, a[0], 4, 'acquire', ins.text, rmw=True)
+            ew = s.shared_store(p, a[0], 4, 1, 'acquire', ins.text)
+            if er is not None and ew is not None: er.rmw = ew; ew.rmw = er
+            if not is_c(old): s.assumes.append((list(p.pc), tobv(old, 32) == 0)); p.pc.append(tobv(old, 32) == 0)
+            elif old != 0: s.assumes.append((list(p.pc), z3.BoolVal(False))); return 'end'
+            return 0
+        if n == 'pthread_mutex_unlock':
+            if s.phase == 'init': s.init_mem.store(a[0], 4, 0); return 0
+            s.shared_store(p, a[0], 4, 0, 'release', ins.text); return 0
         if n == 'vf_assert':
             c = simp(a[0])
             if is_c(c):
